@@ -196,7 +196,7 @@ Lemma build_par_flags mu p r : build_par mu p = Ok r ->
 Proof.
   unfold build_par. intros H. apply bind_ok in H. destruct H as (c & Hc & H). apply bind_ok in H.
   destruct H as (ve & _ & H). inversion H; subst. simpl. split; [|split].
-  - intros X. destruct c; auto. congruence.
+  - intros X. destruct c; auto; congruence.
   - intros X. subst c. auto.
   - destruct (pc_const_cfg p) as [cc|].
     + apply bind_ok in Hc. destruct Hc as (x & _ & Hc). apply bind_ok in Hc. destruct Hc as (y & _ & Hc).
